@@ -10,6 +10,9 @@ Specification: spec/Degree.tla.
       PolyRules  the compositional degree rules against brute-force polynomial arithmetic over CQ
     With the AS-CODED walk (reference value sizes) TLC must produce the underestimate counterexample
     on pools where physical and reference sizes differ, and must NOT on the others.
+    The element universe (one description rendered to TLA+ records AND to real ufl elements): P, vector P,
+    Piola mapped (RT / N1curl like), mixed and symmetric elements, nesting freely; the sub-elements of a
+    symmetric element may be vector valued, Piola mapped or mixed, with any block shape / symmetry map.
 (b) Conformance: every enumerated term is built on real ufl (real elements, meshes incl. immersed
     manifolds) through the public API; the real DAG is read back node by node into the term
     language (constructor simplifications!) -- where it differs from the term TLC built, TLC is run
@@ -96,7 +99,7 @@ def configs(tier):
         mk("interval-immersed", "interval", 2, [["mixed", [["RT", 3], P1]], ["mixed", [P2, ["N1", 1]]]], (1, 2), [(2, 0)], ascoded="fails"),
         # symmetric elements with vector valued sub-elements, as coefficient and as argument, with a
         # permuted symmetry map next to the usual one
-        dict(symv, elems=[["sym", [V1, V3, V2]], ["sym", [V2, V1, V3], [2, 2], [2, 0, 0, 1]]], coef=[1, 2], args=[[1, 0]], idx=[10, 11], ops=list(small) + ["dot"]),
+        dict(symv, elems=[["sym", [V1, V3, V2]], ["sym", [V2, V1, V3], [2, 2], [2, 0, 0, 1]]], coef=[1, 2], args=[[1, 0]], ops=list(small) + ["dot"]),
         # ... with Piola mapped sub-elements on the immersed triangle (physical shape (2, 2, 3), reference sizes 2)
         mk("sym-piola-subs-immersed", "triangle", 3, [["sym", [["RT", 1], ["RT", 3], ["N1", 2]]], P1], (1,), [(2, 0)], coords=(), idx=(10,), ops=("indexed", "pow", "grad", "prod", "sum", "list"), ascoded="fails"),
         # a symmetric element INSIDE a mixed element (4 physical / 3 reference components on a flat mesh) and
@@ -1067,7 +1070,9 @@ def run(ctx, args):
         "TLC builds every term of the bounded algebra (terminals: Coefficient/Argument on each pool element, x, X, literal; "
         "constructors +, *, **n, A[fixed and free indices], as_tensor, [a, b], grad, inner, dot, outer, transposed, implicit index sums; "
         f"depth <= {2 if quick else 3}, second operands of depth <= 1) for each pool (mixed [vecP2,P1]; [RT3-like, P1] on an immersed triangle; nested mixed; "
-        "symmetric 2x2 with equal and with different sub-element degrees; thorough: N1curl-like in nested mixed, interval in R and R^2, tetrahedron, trial+test) "
+        "symmetric 2x2 with equal and with different sub-element degrees; symmetric with VECTOR valued sub-elements of different degrees (physical shape (2,2,2)); "
+        "thorough: N1curl-like in nested mixed, interval in R and R^2, tetrahedron, trial+test, symmetric with a permuted symmetry map / Piola mapped sub-elements on the immersed triangle / "
+        "mixed sub-elements / a rank-1 block, a symmetric element inside a mixed element) "
         "and prints term, Est as coded, Est intended, TrueDeg; every printed term is built on real ufl, read back, estimated (directly and through "
         "compute_form_data), and evaluated exactly as a polynomial.  distinct non-trivial = distinct (pool, term) of depth >= 1 that contains a form argument"
     )
@@ -1293,7 +1298,7 @@ def selftest(ctx):
     lines = lines_of(job)
     e = env_of(cfg)
 
-    def verdict(ls, patch=None):
+    def verdict(ls, patch=None, cfg=cfg, e=e):
         saved = {}
         if patch:
             for k, f in patch.items():
@@ -1350,6 +1355,32 @@ def selftest(ctx):
     imm = next(c for c in configs("quick") if c["name"] == "immersed-rt")
     j = run_jobs(ctx, [Job("ascoded:selftest", imm, rule="reference", dump=False, invs=("EstSafe",), workers=1)])["ascoded:selftest"]
     rejected["as-coded model on [RT3, P1] immersed"] = [fmt(counterexample_term(j.res)[0])] if j.res.outcome == "invariant" else []
+    # the universe of symmetric elements with vector valued sub-elements: a mutant that reads the
+    # sub-element INDEX given by the symmetry map as an offset into the reference value
+    symv = next(c for c in configs("quick") if c["name"] == "sym-vector-subs")
+    j = run_jobs(ctx, [Job("dump:selftest-symv", symv, workers=2)])["dump:selftest-symv"]
+    tlc.require_ok(j.res, "Degree[sym-vector-subs]")
+    sl = [l for l in lines_of(j) if depth_of(l[0]) <= 1 or l[0][0] == "pow"]
+    orig = SDE.__dict__["_sub_element_of_component"]
+
+    def by_offset(self, op, element, component):
+        from ufl.pullback import SymmetricPullback
+
+        pb = element.pullback
+        if not isinstance(pb, SymmetricPullback):
+            return orig(self, op, element, component)
+        local, offset = pb._symmetry[component[: len(pb._block_shape)]], 0
+        for sub in element.sub_elements:
+            offset += sub.reference_value_size
+            if local < offset:
+                return sub
+        return None
+
+    base = verdict(sl, None, symv, env_of(symv))
+    if base.under or base.cross or base.drift:
+        raise MachineryError(f"selftest: the unmodified code does not conform on sym-vector-subs: under={len(base.under)} cross={base.cross[:2]} drift={base.drift[:2]}")
+    m = verdict(sl, {"_sub_element_of_component": by_offset}, symv, env_of(symv))
+    rejected["mutant symmetric sub-element index read as reference offset"] = [f"{len(m.under)} underestimates {fps(m)}", f"{len(m.drift)} binding failures"] if m.under and m.drift and "C18:underestimate:indexed-symmetric-nonscalar-sub-elements" in fps(m) else []
     ctx.traces(len(lines))
     ctx.evaluated(len(lines) * 6)
     ctx.rule = "selftest: in-process mutants of SumDegreeEstimator, corrupted model values and a corrupted exact evaluation must all be rejected"
